@@ -163,6 +163,8 @@ def what_entry_part(t):
         return None
     x = strip(t[1])
     # unwrap()
+    if x[0] == "field" and strip(x[1])[0] == "some" and strip(strip(x[1])[1])[0] == "call":
+        x = ("field", ("call", "std::option::Option::unwrap", (strip(x[1])[1],), None), x[2], x[3] if len(x) > 3 else None)
     if x[0] == "field" and strip(x[1])[0] == "call":
         c = strip(x[1])
         inner = c
@@ -660,3 +662,94 @@ def r_serde(ctx, view):
 def component_is_store(t):
     t = strip(t)
     return t[0] == "field" and t[2] == "store" and is_param(t[1], 1)
+
+
+# ------------------------------------------------------------------------------------------
+# R-ASSIGN (C03): an update stores the offered priority unconditionally and hands back the old one
+# ------------------------------------------------------------------------------------------
+def r_assign(ctx, view):
+    """`change_priority` / `push` on a present item: the offered priority is written into the entry on EVERY path of the
+    found branch (no user comparison decides whether to write), and the value returned is the one swapped out"""
+    prog = view.prog
+    vp = view.vp
+    fx = view.fx
+    ctx.cur = view
+    f = prog.fn("store::Store::change_priority")
+    ctx.anchor("Store::change_priority", f is not None)
+    fam = prog.family(f.key)
+    writes = []
+    userops = []
+    for g in fam:
+        for bb, t in g.calls():
+            ci = fx.call_info(g, bb)
+            if ci.key in ("std::mem::swap", "std::mem::replace"):
+                a = [vp.operand(g, x) for x in t["args"]]
+                tgt = what_entry_part(("deref", a[0])) or (what_entry_part(("deref", a[1])) if len(a) > 1 else None)
+                if tgt == "priority":
+                    writes.append((g, bb, a))
+            elif ci.cmp or (ci.eq and ci.name in ("eq", "ne")):
+                userops.append("%s line %d" % (ci.key, t["span"]["line"]))
+    ok = len(writes) == 1
+    why = "%d write(s) of the offered priority into the found entry" % len(writes)
+    if ok:
+        g, bb, a = writes[0]
+        esc = g.cfg.escape_path(0, {bb}) if bb != 0 else None
+        ok = esc is None
+        why = "the offered priority is swapped into the entry on every path of the found branch" if ok else "a path of the found branch skips the write: %s" % esc
+        # the returned priority is the swapped-out one: the closure returns the local that was the swap's other operand
+        r = ret_term(view, g)
+        other = strip(a[1]) if what_entry_part(("deref", a[0])) else strip(a[0])
+        okr = r[0] == "tuple" and strip(r[1][0]) == other or (r[0] == "call" and r[3] == (g.key, bb))
+        ctx.ob("R-ASSIGN", "Store::change_priority:returns-the-swapped-out-priority", bool(okr), g.loc(),
+               "returns %s; the swap exchanged the entry with %s" % (term_str(r)[:60], term_str(other)[:40]))
+    ctx.ob("R-ASSIGN", "Store::change_priority:unconditional-write", ok, f.loc(), why)
+    ctx.ob("R-ASSIGN", "Store::change_priority:no-user-comparison", not userops, f.loc(),
+           "the Store-level update compares nothing" if not userops else "user comparison(s) decide the update: %s" % "; ".join(userops))
+    g = prog.fn("store::Store::change_priority_by")
+    ctx.anchor("Store::change_priority_by", g is not None)
+    setter = []
+    for h in prog.family(g.key):
+        for bb, t in h.calls():
+            if "func" in t and (t["func"].get("trait") or "").startswith("std::ops::Fn"):
+                a0 = strip(vp.operand(h, t["args"][0]))
+                if a0[0] == "param" and a0[1] == g.key and a0[2] == 3:
+                    setter.append((h, bb))
+    ok = len(setter) == 1 and (setter[0][1] == 0 or setter[0][0].cfg.escape_path(0, {setter[0][1]}) is None) and not setter[0][0].cfg.loops
+    ctx.ob("R-ASSIGN", "Store::change_priority_by:setter-once", ok, g.loc(), "the priority setter runs exactly once on the found entry (%d call sites)" % len(setter))
+    for Q in QUEUES:
+        q = prog.fn(Q + "::push")
+        ctx.anchor(Q + "::push", q is not None)
+        wr = []
+        user = []
+        for bb, t in q.calls():
+            ci = fx.call_info(q, bb)
+            if ci.key in ("std::mem::swap", "std::mem::replace"):
+                a = [vp.operand(q, x) for x in t["args"]]
+                if what_entry_part(("deref", a[0])) == "priority":
+                    wr.append((bb, a))
+            elif (ci.cmp or (ci.eq and ci.name in ("eq", "ne"))) and not ci.local_callee:
+                user.append("%s line %d" % (ci.key, t["span"]["line"]))
+        ok = len(wr) == 1
+        why = "%d priority write(s)" % len(wr)
+        if ok:
+            bb, a = wr[0]
+            # every path through the Occupied arm passes the write: the arm's entry block is the switch target that dominates it
+            arm = None
+            for sb in sorted(q.cfg.reach):
+                tt = q.term(sb)
+                if tt["k"] == "switch":
+                    d = strip(vp.operand(q, tt["discr"]))
+                    if d[0] == "discr" and any(x[0] == "call" and x[1].endswith("::entry") for x in walk(d)):
+                        for val, tb in tt["targets"]:
+                            if q.cfg.dominates(tb, bb):
+                                arm = (sb, tb)
+            if arm:
+                esc = q.cfg.escape_path(arm[0], {bb}, stop_edges={(arm[0], s) for s in q.cfg.succ[arm[0]] if s != arm[1]})
+                ok = esc is None
+                why = "the Occupied arm replaces the priority on every path" if ok else "a path of the Occupied arm skips the replace: %s" % esc
+                r = ret_term(view, q)
+            else:
+                ok, why = False, "Occupied arm not found"
+        ctx.ob("R-ASSIGN", "%s::push:occupied-arm-replaces" % QNAME[Q], ok, q.loc(), why)
+        ctx.ob("R-ASSIGN", "%s::push:no-user-comparison" % QNAME[Q], not user, q.loc(),
+               "push itself compares nothing (the sifts do)" if not user else "; ".join(user))
